@@ -78,6 +78,10 @@ claim("C17", "Reader-selection coverage: every path of Upgrade from Hijack to ne
       "the client parses the 101 from Conn.br of the Conn it returns and creates no other reader. 'For every split point' is a value property over bufio and is NOT decided.",
       NOTE, "region path enumeration with value identity (go/ssa)", "DESIGN.md §4 C17")
 
+claim("C18", "The finite configuration matrix is decided by path predicates: every path of netDialFromURL/netDialFn/proxyFromURL yields the dial function the configuration calls for; in DialContext every path from the dial to req.Write with https+proxy creates tls.Client over the tunnel, handshakes it (doHandshake == nil), writes the request to it and verifies the backend URL's host; "
+      "doHandshake succeeds only after HandshakeContext and (unless InsecureSkipVerify) VerifyHostname(cfg.ServerName); the CONNECT exchange (target/Host, Basic credentials iff password, 200 required) and default ports/scheme mapping are checked on every path. crypto/tls and x/net/proxy are trusted.",
+      NOTE, "path-predicate enumeration of the dial configuration matrix with value provenance (go/ssa)", "DESIGN.md §4 C18")
+
 REASON_NOT_BUILT = "rules for this property are not built yet in this revision (see DESIGN.md §4 for the planned static rules); nothing is claimed"
 
 def main():
